@@ -46,12 +46,12 @@ pub fn scalar_to_json(s: &Scalar) -> J {
         "boolean" => json!(["b", s.to_bool().unwrap()]),
         "date time" => {
             let d = s.to_date_time().unwrap();
-            json!(["dt", d.year(), d.month() as u8, d.day(), d.hour(), d.minute(), d.second(),
+            json!(["dt", d.to_string(), d.year(), d.month() as u8, d.day(), d.hour(), d.minute(), d.second(),
                    d.nanosecond(), d.offset().whole_seconds()])
         }
         "date" => {
             let d = s.to_date().unwrap();
-            json!(["d", d.year(), d.month() as u8, d.day()])
+            json!(["d", d.to_string(), d.year(), d.month() as u8, d.day()])
         }
         "string" => json!(["s", s.to_kstr().as_str()]),
         t => panic!("scalar type {}", t),
